@@ -1,43 +1,68 @@
 PROP = {'title': 'Axis-aligned boxes behave as half-open point sets',
  'level': 'exploration',
  'engine': 'E',
- 'technique': 'exhaustive enumeration of all boxes with corners in a small integer range, all ordered pairs of such boxes and all '
-              'lattice points, compared with explicit point sets',
- 'level_text': 'Every box with integer corners in the stated range (empty, degenerate and inverted ones included), every ordered pair of '
-               'such boxes and every lattice point is run through the real fcppt::math::box templates; each boolean and each result '
+ 'technique': 'exhaustive enumeration of all boxes with corners on a small lattice, all ordered pairs of such boxes and all '
+              'probe points, for integer, floating-point and a user-defined move-observable coordinate type, compared with '
+              'explicit point sets',
+ 'level_text': 'Every box with corners on the stated lattice (empty, degenerate and inverted ones included), every ordered pair of '
+               'such boxes and every probe point is run through the real fcppt::math::box templates; each boolean and each result '
                'box is compared with the explicitly enumerated point set {x : pos_i <= x_i < max_i}. Boundary conventions differ only '
                'where coordinates coincide, and the enumeration contains every relative placement of two boxes up to order-isomorphism '
-               '(touching, flush, nested, overlapping, disjoint with gap) on every axis, which hand-picked tests do not.',
- 'level_note': 'bounded: corners in [-3,3] in 2-D ([-2,2] quick), [-8,8] in 1-D ([-4,4] quick), [-1,1] in 3-D; non-empty boxes additionally '
-               '[-5,5] in 2-D ([-3,3] quick) and [-2,2] in 3-D; unsigned types on the shifted range [0,2r]; oracle = bit masks of explicit point sets in the harness; ASan/UBSan '
-               'aborts are attributed to the announced case',
+               '(touching, flush, nested, overlapping, disjoint with gap) on every axis, which hand-picked tests do not. The lattice is '
+               'mapped strictly monotonically into each coordinate type, so the same exact model also judges float/double boxes with '
+               'non-dyadic and infinite corners (where any arithmetic on a corner shows as an off-lattice value) and boxes over a '
+               'heap-backed integer whose moved-from state is observable.',
+ 'level_note': 'bounded: integer corners in [-3,3] in 2-D ([-2,2] quick), [-8,8] in 1-D ([-4,4] quick), [-1,1] in 3-D; non-empty boxes '
+               'additionally [-5,5] in 2-D ([-3,3] quick) and [-2,2] in 3-D; unsigned types on the shifted range [0,2r]; float/double '
+               'corners c/10 with c in [-30,30] in 1-D ([-15,15] quick) and [-3,3] in 2-D ([-2,2] quick) plus a 13-value (1-D) / 7-value '
+               '(2-D) table of extreme values; heap_int corners in [-3,3] in 1-D and 2-D; oracle = bit masks of explicit point sets in '
+               'the harness; ASan/UBSan aborts are attributed to the announced case',
  'binaries': [{'name': 'C13',
                'sources': ['harness/C13.cpp', 'harness/C13_int.cpp', 'harness/C13_unsigned.cpp', 'harness/C13_wide.cpp',
                            'harness/C13_float.cpp', 'harness/C13_double.cpp', 'harness/C13_heap.cpp'],
                'libs': [],
                'flavour': 'asan'}],
- 'deadline': {'quick': 240, 'thorough': 1500},
- 'rule': 'nested loops over explicit domains: boxes = all (pos,max) with every coordinate in [-r,r] (signed) or [0,2r] (unsigned); '
-         'quick r=4 (1-D), 2 (2-D), 1 (3-D); thorough r=8 (1-D), 3 (2-D), 1 (3-D); all ordered pairs of all boxes; additionally all '
-         'ordered pairs of non-empty boxes with r=3/5 (2-D quick/thorough) and r=2 (3-D); lattice points [-r-1,r+1]^N; shrink/stretch '
-         'amounts in [0,2]^N; types int, unsigned (N=1,2,3); long, unsigned long (N=1 with r=3, N=2 with r=2, both tiers). Reference: bit mask of the explicit point set '
-         'of every box; result boxes are looked up by their corners and compared as sets. A pair case is non-trivial when both boxes '
-         'are non-empty and they share a boundary coordinate on some axis or overlap partially; a point case when the box is non-empty '
-         'and the point is within one step of a face; a single-box case when the box is non-empty; cases are distinct '
-         '(function, box, box/point/amount) tuples',
+ 'deadline': {'quick': 300, 'thorough': 1500},
+ 'rule': 'nested loops over explicit domains. Integer types: boxes = all (pos,max) with every coordinate in [-r,r] (signed) or [0,2r] '
+         '(unsigned); quick r=4 (1-D), 2 (2-D), 1 (3-D); thorough r=8 (1-D), 3 (2-D), 1 (3-D); all ordered pairs of all boxes; '
+         'additionally all ordered pairs of non-empty boxes with r=3/5 (2-D quick/thorough) and r=2 (3-D); probe points [-r-1,r+1]^N; '
+         'shrink/stretch amounts in [0,2]^N; types int, unsigned (N=1,2,3); long, unsigned long (N=1 with r=3, N=2 with r=2, both '
+         'tiers). float and double (N=1,2): corners c/10, c in [-15,15] quick / [-30,30] thorough (1-D) and [-2,2] / [-3,3] (2-D), '
+         'all boxes, all ordered pairs, probe points = every corner value c/10 for c in [-r-1,r+1] and its two floating-point '
+         'neighbours; plus all boxes and all ordered pairs over the extreme-value tables {-inf,-max,-1e30,-2.7,-0.1,-denorm_min,0,'
+         'denorm_min,min,0.1,1e30,max,inf} (1-D) and {-inf,-max,-0.1,0,denorm_min,max,inf} (2-D). heap_int (heap cell, deep copy, a '
+         'moved-from value reads as a poison value and the read is counted): corners [-3,3] in 1-D and 2-D (2-D all pairs on [-2,2] '
+         'plus all pairs of non-empty boxes on [-3,3] in the quick tier), same checks as int. For every box of every domain every way '
+         'of constructing it ((min,max) and (pos,size) with lvalue, temporary and std::move arguments, init_max, init_dim, '
+         'structure_cast, copy/move construction and assignment) is followed by a membership test at every probe point; every '
+         'function is called with lvalues and again with temporaries. Reference: bit mask of the explicit point set of every box; '
+         'result boxes are looked up by their corners (which must be lattice values exactly) and compared as sets. A pair case is '
+         'non-trivial when both boxes are non-empty and they share a boundary coordinate on some axis or overlap partially; a point '
+         'case when the box is non-empty and the point is within one step of a face; a single-box case when the box is non-empty; '
+         'cases are distinct (function, box, box/point/amount) tuples',
  'assumptions': ['intersects, contains (inner) and extend_bounding_box(box,box) are asserted for non-empty boxes only, exactly as the '
                  'statement restricts them',
                  'the null-box clause of intersection is asserted for non-empty, non-intersecting inputs; for empty/inverted inputs '
                  'only "the result has exactly the common points" (i.e. is empty) is asserted (DESIGN.md section 5)',
-                 'size()/box(pos,size)/init_dim are asserted where max-pos is representable in T (not for inverted unsigned boxes); '
-                 'shrink/stretch_absolute with unsigned T only where the resulting corners are representable',
+                 'size()/box(pos,size)/init_dim/structure_cast are asserted where max-pos is representable in T (not for inverted '
+                 'unsigned boxes); shrink/stretch_absolute with unsigned T only where the resulting corners are representable',
                  'shrink is read as erosion and stretch_absolute as dilation by the cube [-v,v] with v >= 0; stretch_absolute is '
                  'asserted for non-empty boxes only',
+                 'floating point: comparison/selection functions (contains_point, intersects, intersection, contains, '
+                 'extend_bounding_box, (min,max) constructor, init_max, getters, interval) must reproduce corner values exactly; '
+                 'functions whose documented result involves arithmetic are compared with the documented formula evaluated in T '
+                 '(size = max-pos, box(pos,size).max = pos+size, corner = pos+bit*size, center = pos+size/2, shrink/stretch corners '
+                 'pos+-v / max-+v with v in {0,0.1,0.25,1}, distance, operator< on (pos,size)) plus the rounding-independent facts '
+                 'shrink(b,v) subset of b, stretch(b,v) superset of b, center inside a non-empty box; on the extreme-value tables '
+                 '(infinite corners) only the comparison/selection functions are run, NaN and -0.0 corners are not enumerated',
+                 'heap_int: reading a moved-from coordinate is reported as read_of_moved_from_scalar; the state of a moved-from box or '
+                 'vector itself is not asserted',
                  'extend_bounding_box(box,point) is not in the statement; it is checked against the closed-hull reading that its '
                  "documentation and the repository's test fix, and the cases where the point is not a member of the (half-open) "
                  'result are counted as information',
                  'box::distance is compared with the documented interval distance per axis only where the documentation determines '
                  'the value (no containment with a shared end point; no negative result for unsigned T)',
-                 'center is asserted to be pos+size/2 rounded down and a point of the box for non-inverted boxes',
+                 'center is asserted to be pos+size/2 rounded down and a point of the box for non-inverted integer boxes',
                  'coordinate types narrower than int are not instantiable (vector arithmetic promotes to int) and are not covered; '
-                 'stretch_relative, structure_cast, componentwise_equal and output are outside the statement']}
+                 'stretch_relative, componentwise_equal and output are outside the statement; structure_cast only as the identity '
+                 'cast']}
